@@ -3,7 +3,7 @@ FRAGMENT = {
  'C17': {'bin': 'w_c17',
  'world': 'c17',
  'level': 'exploration',
- 'quick': {'runs': 40000, 'budget_s': 32, 'workers': 16},
+ 'quick': {'runs': 80000, 'budget_s': 32, 'workers': 16},
  'thorough': {'runs': 2000000, 'budget_s': 900, 'workers': 16, 'det_sample': 200},
  'level_text': 'seeded exploration of cache populations (decimal, hexadecimal, subpage, single-version and clock pages over 1-3 magazines, transmitted '
                'as real Teletext through vbi_decode), patterns (literals, literals cut out of cached pages, a generated regular-expression subset; case '
